@@ -1135,4 +1135,766 @@ theorem applyCvtAll_some (hm : ∀ a b, I32 a → I32 b → (Checked.fxMul a b).
     rw [hb']
     exact ih b'
 
+/-! ## `DeltaSetIndexMap` -/
+
+theorem entrySize_range (ef : Nat) : 1 ≤ entrySize ef ∧ entrySize ef ≤ 4 := by
+  unfold entrySize; omega
+
+theorem bitCount_range (ef : Nat) : 1 ≤ bitCount ef ∧ bitCount ef ≤ 16 := by
+  unfold bitCount; omega
+
+theorem readAt_some_le {d : List Nat} {off sz v : Nat} (h : readAt d off sz = some v) : off + sz ≤ d.length := by
+  unfold readAt checkedAdd at h
+  split at h
+  · cases h
+  · rename_i e he
+    split at he
+    · injection he with he; subst he
+      split at h
+      · assumption
+      · cases h
+    · cases he
+
+/-- what a successful `DeltaSetIndexMap::read` establishes -/
+theorem dsimRead_ok {d : List Nat} {m : Dsim} (hb : Bytes d) (h : dsimRead d = .ok m) :
+    m.d = d ∧ (m.format = 0 ∨ m.format = 1) ∧ m.hdr = (if m.format = 0 then 4 else 6) ∧
+    m.hdr + m.mapLen ≤ d.length ∧
+    ∃ ef mc, readAt d 1 1 = some ef ∧ readAt d 2 (if m.format = 0 then 2 else 4) = some mc ∧
+      m.mapLen = entrySize ef * mc ∧ mc < 4294967296 ∧ ef < 256 := by
+  unfold dsimRead at h
+  cases hf : readAt d 0 1 with
+  | none => rw [hf] at h; cases h
+  | some fmt =>
+    rw [hf] at h
+    simp only [] at h
+    by_cases hfm : fmt = 0 ∨ fmt = 1
+    · rw [if_pos hfm] at h
+      cases hef : readAt d 1 1 with
+      | none => rw [hef] at h; cases h
+      | some ef =>
+        cases hmc : readAt d 2 (if fmt = 0 then 2 else 4) with
+        | none => rw [hef, hmc] at h; cases h
+        | some mc =>
+          rw [hef, hmc] at h
+          simp only [] at h
+          have hmcl : mc < 4294967296 := by
+            have := readAt_lt d hb 2 _ mc hmc
+            split at this <;> omega
+          have hefl : ef < 256 := by have := readAt_lt d hb 1 1 ef hef; omega
+          have hes := entrySize_range ef
+          have hmul : entrySize ef * mc ≤ 4 * 4294967296 := by
+            calc entrySize ef * mc ≤ 4 * mc := Nat.mul_le_mul_right _ hes.2
+              _ ≤ 4 * 4294967296 := by omega
+          have e1 : mapSize ef mc = some (entrySize ef * mc) := by
+            unfold mapSize; exact umul_some _ _ (by unfold MAXU; omega)
+          rw [e1] at h
+          simp only [] at h
+          have e2 : checkedMul (entrySize ef * mc) 1 = some (entrySize ef * mc) := by
+            unfold checkedMul; rw [if_pos (by unfold MAXU; omega)]; simp
+          rw [e2] at h
+          simp only [] at h
+          have e3 : satAdd (2 + if fmt = 0 then 2 else 4) (entrySize ef * mc) =
+              (2 + if fmt = 0 then 2 else 4) + entrySize ef * mc :=
+            satAdd_exact _ _ (by unfold MAXU; split <;> omega)
+          rw [e3] at h
+          by_cases hle : (2 + if fmt = 0 then 2 else 4) + entrySize ef * mc ≤ d.length
+          · rw [if_pos hle] at h
+            injection h with h
+            subst h
+            refine ⟨rfl, hfm, ?_, hle, ef, mc, rfl, hmc, rfl, hmcl, hefl⟩
+            dsimp only
+            split <;> rfl
+          · rw [if_neg hle] at h; cases h
+    · rw [if_neg hfm] at h; cases h
+
+theorem dsimRead_no_trap (d : List Nat) (hb : Bytes d) : dsimRead d ≠ .trap := by
+  unfold dsimRead
+  cases hf : readAt d 0 1 with
+  | none => simp
+  | some fmt =>
+    simp only []
+    by_cases hfm : fmt = 0 ∨ fmt = 1
+    · rw [if_pos hfm]
+      cases hef : readAt d 1 1 with
+      | none => simp
+      | some ef =>
+        cases hmc : readAt d 2 (if fmt = 0 then 2 else 4) with
+        | none => simp
+        | some mc =>
+          simp only []
+          have hmcl : mc < 4294967296 := by
+            have := readAt_lt d hb 2 _ mc hmc
+            split at this <;> omega
+          have hes := entrySize_range ef
+          have hmul : entrySize ef * mc ≤ 4 * 4294967296 := by
+            calc entrySize ef * mc ≤ 4 * mc := Nat.mul_le_mul_right _ hes.2
+              _ ≤ 4 * 4294967296 := by omega
+          have e1 : mapSize ef mc = some (entrySize ef * mc) := by
+            unfold mapSize; exact umul_some _ _ (by unfold MAXU; omega)
+          rw [e1]
+          simp only []
+          cases checkedMul (entrySize ef * mc) 1 with
+          | none => simp
+          | some len => simp only []; split <;> split <;> simp
+    · rw [if_neg hfm]; simp
+
+/-- `DeltaSetIndexMap::get`: no panic, the entry is read inside `map_data`, both indices are `u16`s,
+and the result is the one of C10's `Tent.dsimGet` -/
+theorem dsimGet_facts {d : List Nat} {m : Dsim} (hb : Bytes d) (h : dsimRead d = .ok m) (index : Nat)
+    (hidx : index < 4294967296) :
+    ∃ ef mc data, m.entryFormat = some ef ∧ m.mapCount = some mc ∧ m.mapData = some data ∧
+      data.length = m.mapLen ∧ data = (d.drop m.hdr).take m.mapLen ∧
+      m.get index ≠ .trap ∧ (∀ e, m.get index = .err e → e = .oob) ∧
+      (∀ o i, m.get index = .ok (o, i) →
+        o < 65536 ∧ i < 65536 ∧ min index (mc - 1) * entrySize ef + entrySize ef ≤ data.length ∧
+        Tent.dsimGet ef mc data index = some (o, i)) ∧
+      (m.get index = .err .oob → Tent.dsimGet ef mc data index = none) := by
+  obtain ⟨hd, hfmt, hhdr, hlen, ef0, mc, hef, hmc, hml, hmcl, hefl⟩ := dsimRead_ok hb h
+  have hEf : m.entryFormat = some (ef0 % 64) := by unfold Dsim.entryFormat; rw [hd, hef]; rfl
+  have hMc : m.mapCount = some mc := by unfold Dsim.mapCount; rw [hd]; exact hmc
+  have hes0 : entrySize (ef0 % 64) = entrySize ef0 := by unfold entrySize; omega
+  have hMd : m.mapData = some ((d.drop m.hdr).take m.mapLen) := by
+    unfold Dsim.mapData
+    have hbound : m.hdr + m.mapLen ≤ MAXU := by
+      have h1 : entrySize ef0 * mc ≤ 4 * 4294967296 := by
+        calc entrySize ef0 * mc ≤ 4 * mc := Nat.mul_le_mul_right _ (entrySize_range ef0).2
+          _ ≤ 4 * 4294967296 := by omega
+      unfold MAXU
+      rw [hml]
+      split at hhdr <;> omega
+    rw [uadd_some _ _ hbound]
+    simp only []
+    unfold HandRead.readArray getRange
+    rw [hd, if_pos ⟨by omega, hlen⟩]
+    simp only []
+    have : m.hdr + m.mapLen - m.hdr = m.mapLen := by omega
+    rw [this]
+    simp [Nat.mod_one]
+  have hdl : ((d.drop m.hdr).take m.mapLen).length = m.mapLen := by
+    simp only [List.length_take, List.length_drop]; omega
+  refine ⟨ef0 % 64, mc, _, hEf, hMc, hMd, hdl, rfl, ?_⟩
+  have hes := entrySize_range (ef0 % 64)
+  have hbc := bitCount_range (ef0 % 64)
+  have hidxm : min index (mc - 1) < 4294967296 := by omega
+  have hmul : min index (mc - 1) * entrySize (ef0 % 64) ≤ 4294967296 * 4 := by
+    calc min index (mc - 1) * entrySize (ef0 % 64) ≤ 4294967296 * entrySize (ef0 % 64) :=
+          Nat.mul_le_mul_right _ (by omega)
+      _ ≤ 4294967296 * 4 := Nat.mul_le_mul_left _ hes.2
+  have hget : m.get index =
+      match readAt ((d.drop m.hdr).take m.mapLen) (min index (mc - 1) * entrySize (ef0 % 64)) (entrySize (ef0 % 64)) with
+      | none => .err .oob
+      | some entry => .ok (entry / 2 ^ bitCount (ef0 % 64) % 65536, entry % 2 ^ bitCount (ef0 % 64) % 65536) := by
+    unfold Dsim.get
+    rw [hEf, hMc, hMd]
+    simp only []
+    rw [umul_some _ _ (by unfold MAXU; omega)]
+    simp only []
+    rw [if_pos hes]
+    cases readAt ((d.drop m.hdr).take m.mapLen) (min index (mc - 1) * entrySize (ef0 % 64)) (entrySize (ef0 % 64)) with
+    | none => rfl
+    | some entry =>
+      simp only []
+      rw [if_pos (by omega)]
+      have : 2 ^ bitCount (ef0 % 64) - 1 < 2 ^ bitCount (ef0 % 64) := by
+        have : 0 < 2 ^ bitCount (ef0 % 64) := Nat.pow_pos (by omega)
+        omega
+      rw [if_pos this]
+  rw [hget]
+  have htent : Tent.dsimGet (ef0 % 64) mc ((d.drop m.hdr).take m.mapLen) index =
+      if min index (mc - 1) * entrySize (ef0 % 64) + entrySize (ef0 % 64) ≤ ((d.drop m.hdr).take m.mapLen).length then
+        some ((beValue ((((d.drop m.hdr).take m.mapLen).drop (min index (mc - 1) * entrySize (ef0 % 64))).take (entrySize (ef0 % 64)))
+            / 2 ^ bitCount (ef0 % 64)) % 65536,
+          beValue ((((d.drop m.hdr).take m.mapLen).drop (min index (mc - 1) * entrySize (ef0 % 64))).take (entrySize (ef0 % 64)))
+            % 2 ^ bitCount (ef0 % 64) % 65536)
+      else none := by
+    unfold Tent.dsimGet entrySize bitCount
+    rfl
+  cases hra : readAt ((d.drop m.hdr).take m.mapLen) (min index (mc - 1) * entrySize (ef0 % 64)) (entrySize (ef0 % 64)) with
+  | none =>
+    simp only []
+    refine ⟨by simp, fun e he => by injection he with he; exact he.symm, by simp, fun _ => ?_⟩
+    rw [htent]
+    have : ¬ (min index (mc - 1) * entrySize (ef0 % 64) + entrySize (ef0 % 64) ≤ ((d.drop m.hdr).take m.mapLen).length) := by
+      intro hle
+      obtain ⟨v, hv⟩ := readAt_isSome _ _ _ hle (by unfold MAXU; omega)
+      rw [hv] at hra; cases hra
+    rw [if_neg this]
+  | some entry =>
+    simp only []
+    have hle := readAt_some_le hra
+    refine ⟨by simp, by simp, ?_, by simp⟩
+    intro o i hoi
+    injection hoi with hoi
+    injection hoi with ho hi
+    have hpow : 2 ^ bitCount (ef0 % 64) ≤ 65536 := by
+      calc 2 ^ bitCount (ef0 % 64) ≤ 2 ^ 16 := Nat.pow_le_pow_right (by omega) hbc.2
+        _ = 65536 := by decide
+    refine ⟨by omega, by omega, hle, ?_⟩
+    rw [htent, if_pos hle]
+    unfold readAt checkedAdd at hra
+    rw [if_pos (by unfold MAXU; omega)] at hra
+    simp only [] at hra
+    rw [if_pos hle] at hra
+    injection hra with hra
+    unfold HandRead.beAt at hra
+    rw [hra, ho, hi]
+
+/-! ## `ItemVariationData` -/
+
+/-- `delta_row_len` never overflows for `u16` arguments and is at most `4 · 65535` -/
+theorem deltaRowLen_some (wdc ric : Nat) (hw : wdc < 65536) (hr : ric < 65536) :
+    ∃ r, deltaRowLen wdc ric = some r ∧ r ≤ 262140 ∧ r = Tent.deltaRowLen wdc ric := by
+  unfold deltaRowLen Tent.deltaRowLen
+  simp only []
+  by_cases hl : wdc / 32768 % 2 = 1
+  · simp only [hl, decide_true, if_true]
+    rw [umul_some _ _ (by unfold MAXU; omega), umul_some _ _ (by unfold MAXU; omega)]
+    simp only []
+    rw [uadd_some _ _ (by unfold MAXU; omega)]
+    exact ⟨_, rfl, by omega, rfl⟩
+  · simp only [hl, decide_false, Bool.false_eq_true, if_false]
+    rw [umul_some _ _ (by unfold MAXU; omega), umul_some _ _ (by unfold MAXU; omega)]
+    simp only []
+    rw [uadd_some _ _ (by unfold MAXU; omega)]
+    exact ⟨_, rfl, by omega, rfl⟩
+
+theorem deltaSetsLen_some (ic wdc ric : Nat) (hi : ic < 65536) (hw : wdc < 65536) (hr : ric < 65536) :
+    ∃ n, deltaSetsLen ic wdc ric = some n ∧ n ≤ 262140 * 65535 := by
+  obtain ⟨r, hr1, hr2, _⟩ := deltaRowLen_some wdc ric hw hr
+  unfold deltaSetsLen
+  rw [hr1]
+  simp only []
+  have : r * ic ≤ 262140 * 65535 := Nat.mul_le_mul hr2 (by omega)
+  rw [umul_some _ _ (by unfold MAXU; omega)]
+  exact ⟨_, rfl, this⟩
+
+/-- what a successful `ItemVariationData::read` establishes -/
+theorem ivdRead_facts (d : List Nat) (hb : Bytes d) :
+    ivdRead d ≠ .trap ∧ (∀ e, ivdRead d = .err e → e = .oob) ∧
+    ∀ v, ivdRead d = .ok v →
+      v.d = d ∧ 6 + v.riLen + v.dsLen ≤ d.length ∧
+      ∃ ic wdc ric row, readAt d 0 2 = some ic ∧ readAt d 2 2 = some wdc ∧ readAt d 4 2 = some ric ∧
+        ic < 65536 ∧ wdc < 65536 ∧ ric < 65536 ∧ v.riLen = ric * 2 ∧
+        deltaRowLen wdc ric = some row ∧ v.dsLen = row * ic := by
+  unfold ivdRead
+  cases h0 : readAt d 0 2 with
+  | none => exact ⟨by simp, fun e he => by injection he with he; exact he.symm, by simp⟩
+  | some ic =>
+    cases h2 : readAt d 2 2 with
+    | none => exact ⟨by simp, fun e he => by injection he with he; exact he.symm, by simp⟩
+    | some wdc =>
+      cases h4 : readAt d 4 2 with
+      | none => exact ⟨by simp, fun e he => by injection he with he; exact he.symm, by simp⟩
+      | some ric =>
+        simp only []
+        have hic : ic < 65536 := by have := readAt_lt d hb 0 2 ic h0; omega
+        have hwdc : wdc < 65536 := by have := readAt_lt d hb 2 2 wdc h2; omega
+        have hric : ric < 65536 := by have := readAt_lt d hb 4 2 ric h4; omega
+        have e1 : checkedMul ric 2 = some (ric * 2) := by unfold checkedMul; rw [if_pos (by unfold MAXU; omega)]
+        rw [e1]
+        simp only []
+        obtain ⟨row, hrow, hrl, _⟩ := deltaRowLen_some wdc ric hwdc hric
+        have hmul : row * ic ≤ 262140 * 65535 := Nat.mul_le_mul hrl (by omega)
+        have e2 : deltaSetsLen ic wdc ric = some (row * ic) := by
+          unfold deltaSetsLen; rw [hrow]; simp only []; exact umul_some _ _ (by unfold MAXU; omega)
+        rw [e2]
+        simp only []
+        have e3 : checkedMul (row * ic) 1 = some (row * ic) := by
+          unfold checkedMul; rw [if_pos (by unfold MAXU; omega)]; simp
+        rw [e3]
+        simp only []
+        have e4 : satAdd (satAdd 6 (ric * 2)) (row * ic) = 6 + ric * 2 + row * ic := by
+          rw [satAdd_exact 6 _ (by unfold MAXU; omega)]
+          exact satAdd_exact _ _ (by unfold MAXU; omega)
+        rw [e4]
+        by_cases hle : 6 + ric * 2 + row * ic ≤ d.length
+        · rw [if_pos hle]
+          refine ⟨by simp, by simp, ?_⟩
+          intro v hv
+          injection hv with hv
+          subst hv
+          exact ⟨rfl, hle, ic, wdc, ric, row, rfl, rfl, rfl, hic, hwdc, hric, rfl, hrow, rfl⟩
+        · rw [if_neg hle]
+          exact ⟨by simp, fun e he => by injection he with he; exact he.symm, by simp⟩
+
+/-- `ItemDeltas` yields at most `len − pos` values and never overflows its `u16` position -/
+theorem itemDeltasGo_some (wdcLow : Nat) (long : Bool) (len : Nat) (hlen : len ≤ 65535) :
+    ∀ (fuel pos : Nat) (bytes : List Nat), ∃ l, itemDeltasGo wdcLow long len fuel pos bytes = some l ∧
+      l.length ≤ len - pos ∧ l.length ≤ fuel := by
+  intro fuel
+  induction fuel with
+  | zero => intro pos bytes; exact ⟨[], rfl, by simp, by simp⟩
+  | succ f ih =>
+    intro pos bytes
+    unfold itemDeltasGo
+    by_cases hp : pos ≥ len
+    · rw [if_pos hp]; exact ⟨[], rfl, by simp, by simp⟩
+    · rw [if_neg hp, if_neg (by omega)]
+      cases Tent.readW (Tent.colWidth wdcLow long pos) bytes with
+      | none => exact ⟨[], rfl, by simp, by simp⟩
+      | some vr =>
+        obtain ⟨v, rest⟩ := vr
+        simp only []
+        obtain ⟨l, hl, h1, h2⟩ := ih (pos + 1) rest
+        rw [hl]
+        exact ⟨v :: l, rfl, by simp only [List.length_cons]; omega, by simp only [List.length_cons]; omega⟩
+
+/-- the getters and `delta_set` of a read `ItemVariationData`: no panic, `region_index_count` region
+indices, at most that many deltas, and the row offset `row_len · inner` is used only inside the delta
+sets (a row beyond them is empty) -/
+theorem ivd_getters {d : List Nat} {v : Ivd} (hb : Bytes d) (h : ivdRead d = .ok v) (inner : Nat)
+    (hin : inner < 65536) :
+    ∃ ris ds, v.regionIndexes = some ris ∧ v.deltaSet inner = some ds ∧ ds.length ≤ ris.length ∧
+      ris.length < 65536 ∧ (∀ x ∈ ris, x < 65536) := by
+  obtain ⟨_, _, hok⟩ := ivdRead_facts d hb
+  obtain ⟨hd, hlen, ic, wdc, ric, row, h0, h2, h4, hic, hwdc, hric, hril, hrow, hdsl⟩ := hok v h
+  obtain ⟨_, _, hrl, _⟩ := deltaRowLen_some wdc ric hwdc hric
+  have hrowl : row ≤ 262140 := by rw [hrow] at *; rename_i r0 h' _; injection h' with h'; omega
+  have hmul : row * ic ≤ 262140 * 65535 := Nat.mul_le_mul hrowl (by omega)
+  have hRi : v.regionIndexes = some ((List.range ric).map (fun i => HandRead.beAt v.d (6 + 2 * i) 2)) := by
+    unfold Ivd.regionIndexes
+    rw [uadd_some _ _ (by unfold MAXU; omega)]
+    simp only []
+    unfold HandRead.readArray getRange
+    rw [hd, if_pos ⟨by omega, by omega⟩]
+    simp only []
+    have : 6 + v.riLen - 6 = ric * 2 := by omega
+    rw [this]
+    simp
+  have hDs : v.deltaSets = some ((v.d.drop (6 + v.riLen)).take v.dsLen) := by
+    unfold Ivd.deltaSets
+    rw [uadd_some _ _ (by unfold MAXU; omega)]
+    simp only []
+    rw [uadd_some _ _ (by unfold MAXU; omega)]
+    simp only []
+    unfold HandRead.readArray getRange
+    rw [hd, if_pos ⟨by omega, by omega⟩]
+    simp only []
+    have : 6 + v.riLen + v.dsLen - (6 + v.riLen) = v.dsLen := by omega
+    rw [this]
+    simp [Nat.mod_one]
+  have hmul2 : row * inner ≤ 262140 * 65535 := Nat.mul_le_mul hrowl (by omega)
+  obtain ⟨l, hl, hl1, _⟩ := itemDeltasGo_some (wdc % 32768) (decide (wdc / 32768 % 2 = 1)) ric (by omega) ric 0
+    (if row * inner ≤ ((v.d.drop (6 + v.riLen)).take v.dsLen).length
+      then ((v.d.drop (6 + v.riLen)).take v.dsLen).drop (row * inner) else [])
+  refine ⟨_, l, hRi, ?_, by simp; omega, by simp; omega, ?_⟩
+  · unfold Ivd.deltaSet Ivd.wordDeltaCount Ivd.regionIndexCount
+    rw [hd, h2, h4, hDs]
+    simp only []
+    rw [hrow]
+    simp only []
+    rw [umul_some _ _ (by unfold MAXU; omega)]
+    exact hl
+  · intro x hx
+    simp only [List.mem_map, List.mem_range] at hx
+    obtain ⟨i, _, rfl⟩ := hx
+    rw [hd]
+    exact beAt2_lt d hb _
+
+/-! ## `ItemVariationStore` -/
+
+theorem bytes_drop {d : List Nat} (hb : Bytes d) (n : Nat) : Bytes (d.drop n) :=
+  fun b h => hb b (List.mem_of_mem_drop h)
+
+theorem ivsRead_some {d : List Nat} {s : Ivs} (hb : Bytes d) (h : ivsRead d = some s) :
+    s.d = d ∧ 8 + s.offsLen ≤ d.length ∧ s.offsLen % 4 = 0 ∧ s.offsLen ≤ 262140 := by
+  unfold ivsRead at h
+  cases hc : readAt d 6 2 with
+  | none => rw [hc] at h; cases h
+  | some cnt =>
+    rw [hc] at h
+    simp only [] at h
+    have hcl : cnt < 65536 := by have := readAt_lt d hb 6 2 cnt hc; omega
+    have e1 : checkedMul cnt 4 = some (cnt * 4) := by unfold checkedMul; rw [if_pos (by unfold MAXU; omega)]
+    rw [e1] at h
+    simp only [] at h
+    rw [satAdd_exact 8 _ (by unfold MAXU; omega)] at h
+    by_cases hle : 8 + cnt * 4 ≤ d.length
+    · rw [if_pos hle] at h
+      injection h with h
+      subst h
+      exact ⟨rfl, hle, by simp, by simp only []; omega⟩
+    · rw [if_neg hle] at h; cases h
+
+/-- `item_variation_data().get(outer)`: no panic (the offsets array was validated by the reader); a
+subtable is read from a suffix of the store -/
+theorem itemData_facts {d : List Nat} {s : Ivs} (hb : Bytes d) (h : ivsRead d = some s) (outer : Nat) :
+    s.itemData outer ≠ .trap ∧
+    (∀ e, s.itemData outer = .err e → e = .oob ∨ e = .invalidIndex outer) ∧
+    ∀ v, s.itemData outer = .ok (some v) → ∃ d', ivdRead d' = .ok v ∧ Bytes d' ∧ d'.length ≤ d.length := by
+  obtain ⟨hd, hlen, hm4, hol⟩ := ivsRead_some hb h
+  unfold Ivs.itemData
+  rw [uadd_some _ _ (by unfold MAXU; omega)]
+  simp only []
+  have hra : HandRead.readArray s.d 8 (8 + s.offsLen) 4 = .ok (s.offsLen / 4) := by
+    unfold HandRead.readArray getRange
+    rw [hd, if_pos ⟨by omega, hlen⟩]
+    simp only []
+    have : 8 + s.offsLen - 8 = s.offsLen := by omega
+    rw [this]
+    simp [hm4]
+  rw [hra]
+  simp only []
+  by_cases ho : outer < s.offsLen / 4
+  · rw [if_pos ho]
+    split
+    · exact ⟨by simp, by simp, by simp⟩
+    · split
+      · rename_i hoff
+        have hfacts := ivdRead_facts (s.d.drop (HandRead.beAt s.d (8 + 4 * outer) 4)) (by rw [hd]; exact bytes_drop hb _)
+        cases hr : ivdRead (s.d.drop (HandRead.beAt s.d (8 + 4 * outer) 4)) with
+        | trap => exact absurd hr hfacts.1
+        | err e => exact ⟨by simp, fun e' he' => by injection he' with he'; subst he'; exact Or.inl (hfacts.2.1 e hr), by simp⟩
+        | ok v =>
+          refine ⟨by simp, by simp, ?_⟩
+          intro v' hv'
+          injection hv' with hv'
+          injection hv' with hv'
+          subst hv'
+          refine ⟨_, hr, by rw [hd]; exact bytes_drop hb _, ?_⟩
+          rw [hd]; simp
+      · exact ⟨by simp, fun e he => by injection he with he; exact Or.inl he.symm, by simp⟩
+  · rw [if_neg ho]
+    exact ⟨by simp, fun e he => by injection he with he; exact Or.inr he.symm, by simp⟩
+
+/-- `variation_region_list()`: no panic -/
+theorem regionList_facts {d : List Nat} {s : Ivs} (hb : Bytes d) (h : ivsRead d = some s) :
+    s.regionList ≠ .trap ∧ (∀ e, s.regionList = .err e → e = .oob ∨ e = .nullOffset) ∧
+    ∀ rl, s.regionList = .ok rl → Bytes rl.d ∧ 4 + rl.regLen ≤ rl.d.length ∧
+      ∃ ac rc, rl.axisCount = some ac ∧ ac < 65536 ∧ rc < 65536 ∧ rl.regLen = rc * (ac * 6) := by
+  obtain ⟨hd, hlen, _, _⟩ := ivsRead_some hb h
+  unfold Ivs.regionList
+  obtain ⟨off, hoff⟩ := readAt_isSome s.d 2 4 (by rw [hd]; omega) (by unfold MAXU; omega)
+  rw [hoff]
+  simp only []
+  have hres := resolveData_facts s.d off
+  cases hrd : resolveData s.d off with
+  | trap => exact absurd hrd hres.1
+  | err e => exact ⟨by simp, fun e' he' => by injection he' with he'; subst he'; exact resolveData_err _ _ _ hrd, by simp⟩
+  | ok data =>
+    simp only []
+    obtain ⟨hdata, _, _⟩ := hres.2 data hrd
+    have hbd : Bytes data := by rw [hdata, hd]; exact bytes_drop hb _
+    cases ha : readAt data 0 2 with
+    | none => exact ⟨by simp, fun e he => by injection he with he; exact Or.inl he.symm, by simp⟩
+    | some ac =>
+      cases hc : readAt data 2 2 with
+      | none => exact ⟨by simp, fun e he => by injection he with he; exact Or.inl he.symm, by simp⟩
+      | some rc =>
+        simp only []
+        have hacl : ac < 65536 := by have := readAt_lt data hbd 0 2 ac ha; omega
+        have hrcl : rc < 65536 := by have := readAt_lt data hbd 2 2 rc hc; omega
+        have e1 : checkedMul ac 6 = some (ac * 6) := by unfold checkedMul; rw [if_pos (by unfold MAXU; omega)]
+        rw [e1]
+        simp only []
+        have hmul : rc * (ac * 6) ≤ 65535 * (65535 * 6) := Nat.mul_le_mul (by omega) (by omega)
+        have e2 : checkedMul rc (ac * 6) = some (rc * (ac * 6)) := by
+          unfold checkedMul; rw [if_pos (by unfold MAXU; omega)]
+        rw [e2]
+        simp only []
+        rw [satAdd_exact 4 _ (by unfold MAXU; omega)]
+        by_cases hle : 4 + rc * (ac * 6) ≤ data.length
+        · rw [if_pos hle]
+          refine ⟨by simp, by simp, ?_⟩
+          intro rl hrl
+          injection hrl with hrl
+          subst hrl
+          exact ⟨hbd, hle, ac, rc, ha, hacl, hrcl, rfl⟩
+        · rw [if_neg hle]
+          exact ⟨by simp, fun e he => by injection he with he; exact Or.inl he.symm, by simp⟩
+
+theorem regionAxes_facts (d : List Nat) (hb : Bytes d) (a n : Nat) :
+    (regionAxes d a n).length = n ∧ ∀ x ∈ regionAxes d a n, I16 x.1 ∧ I16 x.2.1 ∧ I16 x.2.2 := by
+  refine ⟨by simp [regionAxes], ?_⟩
+  intro x hx
+  simp only [regionAxes, List.mem_map, List.mem_range] at hx
+  obtain ⟨i, _, rfl⟩ := hx
+  exact ⟨toI16_I16 _ (beAt2_lt d hb _), toI16_I16 _ (beAt2_lt d hb _), toI16_I16 _ (beAt2_lt d hb _)⟩
+
+/-- `variation_regions().get(idx)`: no panic; a region that is answered lies inside the region array
+and has `axis_count` `i16` triples -/
+theorem region_facts (rl : Vrl) (hb : Bytes rl.d) (hlen : 4 + rl.regLen ≤ rl.d.length) (ac : Nat)
+    (hac : rl.axisCount = some ac) (hacl : ac < 65536) (hrl : rl.regLen ≤ 65535 * (65535 * 6)) (idx : Nat) :
+    rl.region idx ≠ .trap ∧ (∀ e, rl.region idx = .err e → e = .oob) ∧
+    ∀ axes, rl.region idx = .ok axes → axes.length = ac ∧ idx * (6 * ac) + 6 * ac ≤ rl.regLen ∧
+      ∀ x ∈ axes, I16 x.1 ∧ I16 x.2.1 ∧ I16 x.2.2 := by
+  unfold Vrl.region
+  rw [hac, uadd_some _ _ (by unfold MAXU; omega)]
+  simp only []
+  have : sliceExcl rl.d 4 (4 + rl.regLen) = some (4 + rl.regLen - 4) := by
+    unfold sliceExcl getRange; rw [if_pos ⟨by omega, hlen⟩]
+  rw [this]
+  simp only []
+  cases hc : compGet rl.regLen (6 * ac) idx with
+  | none => exact ⟨by simp, fun e he => by injection he with he; exact he.symm, by simp⟩
+  | some off =>
+    simp only []
+    refine ⟨by simp, by simp, ?_⟩
+    intro axes ha
+    injection ha with ha
+    subst ha
+    obtain ⟨h1, h2⟩ := regionAxes_facts rl.d hb (4 + off) ac
+    refine ⟨h1, ?_, h2⟩
+    unfold compGet checkedMul at hc
+    split at hc
+    · cases hc
+    · rename_i o ho
+      split at ho
+      · injection ho with ho
+        subst ho
+        split at hc
+        · injection hc with hc
+        · cases hc
+      · cases ho
+
+/-- the delta / region pairing: with at most as many deltas as region indices the `MalformedData`
+exit is never taken, nothing panics, and every delta keeps its position -/
+theorem deltaRegions_facts (rl : Vrl) (hb : Bytes rl.d) (hlen : 4 + rl.regLen ≤ rl.d.length) (ac : Nat)
+    (hac : rl.axisCount = some ac) (hacl : ac < 65536) (hrl : rl.regLen ≤ 65535 * (65535 * 6)) :
+    ∀ (ds : List Int) (ris : List Nat), ds.length ≤ ris.length →
+      deltaRegions rl ds ris ≠ .trap ∧ (∀ e, deltaRegions rl ds ris = .err e → e = .oob) ∧
+      ∀ l, deltaRegions rl ds ris = .ok l → l.map (·.1) = ds ∧
+        ∀ x ∈ l, x.2.length = ac ∧ ∀ y ∈ x.2, I16 y.1 ∧ I16 y.2.1 ∧ I16 y.2.2 := by
+  intro ds
+  induction ds with
+  | nil => intro ris _; exact ⟨by simp [deltaRegions], by simp [deltaRegions], by simp [deltaRegions]⟩
+  | cons dl rest ih =>
+    intro ris hl
+    cases ris with
+    | nil => simp at hl
+    | cons ri ris' =>
+      unfold deltaRegions
+      obtain ⟨r1, r2, r3⟩ := region_facts rl hb hlen ac hac hacl hrl ri
+      cases hr : rl.region ri with
+      | trap => exact absurd hr r1
+      | err e => exact ⟨by simp, fun e' he' => by injection he' with he'; subst he'; exact r2 e hr, by simp⟩
+      | ok axes =>
+        simp only []
+        obtain ⟨i1, i2, i3⟩ := ih ris' (by simp at hl; omega)
+        cases hrest : deltaRegions rl rest ris' with
+        | trap => exact absurd hrest i1
+        | err e => exact ⟨by simp, fun e' he' => by injection he' with he'; subst he'; exact i2 e hrest, by simp⟩
+        | ok l' =>
+          refine ⟨by simp, by simp, ?_⟩
+          intro l hl'
+          injection hl' with hl'
+          subst hl'
+          obtain ⟨j1, j2⟩ := i3 l' hrest
+          obtain ⟨k1, _, k3⟩ := r3 axes hr
+          refine ⟨by simp [j1], ?_⟩
+          intro x hx
+          simp only [List.mem_cons] at hx
+          rcases hx with rfl | hx
+          · exact ⟨k1, k3⟩
+          · exact j2 x hx
+
+theorem readW_I32 (w : Nat) (bytes : List Nat) (hb : Bytes bytes) (v : Int) (rest : List Nat)
+    (h : Tent.readW w bytes = some (v, rest)) : I32 v ∧ Bytes rest := by
+  unfold Tent.readW at h
+  split at h
+  · unfold Tent.readS1 at h
+    match bytes, hb, h with
+    | b :: r, hb, h =>
+      simp only [Option.some.injEq, Prod.mk.injEq] at h
+      have hb0 := hb b (by simp)
+      obtain ⟨h1, h2⟩ := h
+      subst h2
+      refine ⟨?_, fun x hx => hb x (by simp [hx])⟩
+      unfold I32; rw [← h1]; split <;> omega
+  · split at h
+    · unfold Tent.readS2 at h
+      match bytes, hb, h with
+      | a :: b :: r, hb, h =>
+        simp only [Option.some.injEq, Prod.mk.injEq] at h
+        have ha := hb a (by simp)
+        have hb0 := hb b (by simp)
+        obtain ⟨h1, h2⟩ := h
+        subst h2
+        refine ⟨?_, fun x hx => hb x (by simp [hx])⟩
+        unfold I32; rw [← h1]; split <;> omega
+    · unfold Tent.readS4 at h
+      match bytes, hb, h with
+      | a :: b :: c :: e :: r, hb, h =>
+        simp only [Option.some.injEq, Prod.mk.injEq] at h
+        have ha := hb a (by simp)
+        have hb0 := hb b (by simp)
+        have hc := hb c (by simp)
+        have he := hb e (by simp)
+        obtain ⟨h1, h2⟩ := h
+        subst h2
+        refine ⟨?_, fun x hx => hb x (by simp [hx])⟩
+        unfold I32; rw [← h1]; split <;> omega
+
+theorem itemDeltasGo_I32 (wdcLow : Nat) (long : Bool) (len : Nat) :
+    ∀ (fuel pos : Nat) (bytes : List Nat) (l : List Int), Bytes bytes →
+      itemDeltasGo wdcLow long len fuel pos bytes = some l → ∀ x ∈ l, I32 x := by
+  intro fuel
+  induction fuel with
+  | zero => intro pos bytes l _ h; simp [itemDeltasGo] at h; subst h; simp
+  | succ f ih =>
+    intro pos bytes l hb h
+    unfold itemDeltasGo at h
+    split at h
+    · injection h with h; subst h; simp
+    · split at h
+      · cases h
+      · cases hr : Tent.readW (Tent.colWidth wdcLow long pos) bytes with
+        | none => rw [hr] at h; injection h with h; subst h; simp
+        | some vr =>
+          obtain ⟨v, rest⟩ := vr
+          rw [hr] at h
+          simp only [] at h
+          obtain ⟨hv, hrest⟩ := readW_I32 _ bytes hb v rest hr
+          cases hg : itemDeltasGo wdcLow long len f (pos + 1) rest with
+          | none => rw [hg] at h; cases h
+          | some l' =>
+            rw [hg] at h
+            simp only [Option.map_some] at h
+            injection h with h
+            subst h
+            intro x hx
+            simp only [List.mem_cons] at hx
+            rcases hx with rfl | hx
+            · exact hv
+            · exact ih (pos + 1) rest l' hrest hg x hx
+
+/-- all deltas of a row are `i32`s -/
+theorem deltaSet_I32 {d : List Nat} {v : Ivd} (hb : Bytes d) (h : ivdRead d = .ok v) (inner : Nat)
+    (ds : List Int) (hds : v.deltaSet inner = some ds) : ∀ x ∈ ds, I32 x := by
+  obtain ⟨_, _, hok⟩ := ivdRead_facts d hb
+  obtain ⟨hd, _⟩ := hok v h
+  unfold Ivd.deltaSet at hds
+  split at hds
+  · rename_i wdc ric dsb _ _ hdsb
+    split at hds
+    · cases hds
+    · split at hds
+      · cases hds
+      · have hbb : Bytes dsb := by
+          unfold Ivd.deltaSets at hdsb
+          split at hdsb
+          · cases hdsb
+          · split at hdsb
+            · cases hdsb
+            · split at hdsb
+              · injection hdsb with hdsb
+                rw [← hdsb, hd]
+                intro b hbm
+                exact hb b (List.mem_of_mem_drop (List.mem_of_mem_take hbm))
+              · cases hdsb
+        refine itemDeltasGo_I32 _ _ _ _ _ _ ds ?_ hds
+        split
+        · exact bytes_drop hbb _
+        · intro b hbm; simp at hbm
+  · cases hds
+
+/-- the walk in front of the arithmetic of `compute_delta` / `compute_float_delta`: no panic, the
+`MalformedData` exit is dead, and the kernel gets at most 65535 `i32` deltas with `i16` regions -/
+theorem deltaWalk_facts {d : List Nat} {s : Ivs} (hb : Bytes d) (h : ivsRead d = some s) (outer inner : Nat)
+    (hin : inner < 65536) (ce : Bool) :
+    s.deltaWalk outer inner ce ≠ .trap ∧
+    (∀ e, s.deltaWalk outer inner ce = .err e → e = .oob ∨ e = .nullOffset ∨ e = .invalidIndex outer) ∧
+    ∀ l, s.deltaWalk outer inner ce = .ok (some l) → l.length ≤ 65535 ∧
+      ∀ x ∈ l, I32 x.1 ∧ ∀ y ∈ x.2, I16 y.1 ∧ I16 y.2.1 ∧ I16 y.2.2 := by
+  unfold Ivs.deltaWalk
+  cases ce with
+  | true => exact ⟨by simp, by simp, by simp⟩
+  | false =>
+    simp only [Bool.false_eq_true, if_false]
+    obtain ⟨i1, i2, i3⟩ := itemData_facts hb h outer
+    cases hid : s.itemData outer with
+    | trap => exact absurd hid i1
+    | err e =>
+      refine ⟨by simp, fun e' he' => ?_, by simp⟩
+      injection he' with he'; subst he'
+      rcases i2 e hid with h1 | h1
+      · exact Or.inl h1
+      · exact Or.inr (Or.inr h1)
+    | ok ov =>
+      cases ov with
+      | none => exact ⟨by simp, by simp, by simp⟩
+      | some v =>
+        simp only []
+        obtain ⟨d', hrd, hbd', _⟩ := i3 v hid
+        obtain ⟨r1, r2, r3⟩ := regionList_facts hb h
+        cases hrl : s.regionList with
+        | trap => exact absurd hrl r1
+        | err e =>
+          refine ⟨by simp, fun e' he' => ?_, by simp⟩
+          injection he' with he'; subst he'
+          rcases r2 e hrl with h1 | h1
+          · exact Or.inl h1
+          · exact Or.inr (Or.inl h1)
+        | ok rl =>
+          simp only []
+          obtain ⟨hbr, hlen, ac, rc, hac, hacl, hrc, hreg⟩ := r3 rl hrl
+          obtain ⟨ris, ds, hris, hds, hdl, hrisl, _⟩ := ivd_getters hbd' hrd inner hin
+          rw [hris, hds]
+          simp only []
+          have hregl : rl.regLen ≤ 65535 * (65535 * 6) := by
+            rw [hreg]
+            exact Nat.mul_le_mul (by omega) (by omega)
+          obtain ⟨g1, g2, g3⟩ := deltaRegions_facts rl hbr hlen ac hac hacl hregl ds ris hdl
+          cases hdr : deltaRegions rl ds ris with
+          | trap => exact absurd hdr g1
+          | err e =>
+            refine ⟨by simp, fun e' he' => ?_, by simp⟩
+            injection he' with he'; subst he'
+            exact Or.inl (g2 e hdr)
+          | ok l =>
+            refine ⟨by simp, by simp, ?_⟩
+            intro l' hl'
+            injection hl' with hl'
+            injection hl' with hl'
+            subst hl'
+            obtain ⟨k1, k2⟩ := g3 l hdr
+            have hll : l.length = ds.length := by rw [← k1]; simp
+            refine ⟨by omega, ?_⟩
+            intro x hx
+            refine ⟨?_, (k2 x hx).2⟩
+            have : x.1 ∈ ds := by rw [← k1]; exact List.mem_map.mpr ⟨x, hx, rfl⟩
+            exact deltaSet_I32 hbd' hrd inner ds hds x.1 this
+
+/-! ## `Mvar::metric_delta`: the binary search -/
+
+/-- the search never indexes outside the records, never overflows, and needs at most `hi − lo` trips -/
+theorem mvarSearch_facts (tags : List Nat) (tag : Nat) (hn : tags.length ≤ 65535) :
+    ∀ (fuel lo hi : Nat), hi ≤ tags.length → hi - lo < fuel →
+      ∃ r, mvarSearch tags tag fuel lo hi = .ok r ∧ (∀ i, r = some i → lo ≤ i ∧ i < hi ∧ tags[i]? = some tag) := by
+  intro fuel
+  induction fuel with
+  | zero => intro lo hi _ h; omega
+  | succ f ih =>
+    intro lo hi hhi hf
+    unfold mvarSearch
+    by_cases hlt : lo < hi
+    · rw [if_pos hlt]
+      rw [uadd_some _ _ (by unfold MAXU; omega)]
+      simp only []
+      have hi_lt : (lo + hi) / 2 < tags.length := by omega
+      rw [List.getElem?_eq_getElem hi_lt]
+      simp only []
+      by_cases h1 : tag < tags[(lo + hi) / 2]
+      · rw [if_pos h1]
+        obtain ⟨r, hr, hp⟩ := ih lo ((lo + hi) / 2) (by omega) (by omega)
+        exact ⟨r, hr, fun i hi' => by obtain ⟨a, b, c⟩ := hp i hi'; exact ⟨a, by omega, c⟩⟩
+      · rw [if_neg h1]
+        by_cases h2 : tag > tags[(lo + hi) / 2]
+        · rw [if_pos h2]
+          rw [uadd_some _ _ (by unfold MAXU; omega)]
+          simp only []
+          obtain ⟨r, hr, hp⟩ := ih ((lo + hi) / 2 + 1) hi hhi (by omega)
+          exact ⟨r, hr, fun i hi' => by obtain ⟨a, b, c⟩ := hp i hi'; exact ⟨by omega, b, c⟩⟩
+        · rw [if_neg h2]
+          refine ⟨some ((lo + hi) / 2), rfl, ?_⟩
+          intro i hi'
+          injection hi' with hi'
+          subst hi'
+          refine ⟨by omega, by omega, ?_⟩
+          rw [List.getElem?_eq_getElem hi_lt]
+          congr 1
+          omega
+    · rw [if_neg hlt]
+      exact ⟨none, rfl, fun i hi' => by cases hi'⟩
+
 end FontVerif.C01HandVar
